@@ -191,6 +191,23 @@ fn search_case(rep: &mut Report, rng: &mut Rng, ops: &[OpV], thorough: bool) {
             let tset: TextSelectionSet = refidx.iter().map(|i| known[*i].clone()).collect();
             let got = guard(|| res.related_text(o, tset).map(|t| (t.begin(), t.end())).collect::<Vec<R>>());
             compare(rep, &case, "resource", op, &refs, got, &expected);
+            // entry point 5: the iterator adaptor (an iterator of selections).related_text(): related to ANY of them -
+            // the single-reference answers (entry point 3, judged on their own) merged in textual order, each once
+            {
+                let merged: Result<Vec<R>, Panic> = guard(|| {
+                    let mut v: Vec<R> = Vec::new();
+                    for i in &refidx {
+                        v.extend(known[*i].related_text(o).map(|t| (t.begin(), t.end())));
+                    }
+                    v.sort();
+                    v.dedup();
+                    v
+                });
+                if let Ok(merged) = merged {
+                    let got = guard(|| refidx.iter().map(|i| known[*i].clone()).related_text(o).map(|t| (t.begin(), t.end())).collect::<Vec<R>>());
+                    compare(rep, &case, "iterator", op, &refs, got, &merged);
+                }
+            }
             if refidx.len() == 1 {
                 // entry point 3: ResultTextSelection::related_text
                 let got = guard(|| known[refidx[0]].related_text(o).map(|t| (t.begin(), t.end())).collect::<Vec<R>>());
@@ -209,7 +226,7 @@ fn search_case(rep: &mut Report, rng: &mut Rng, ops: &[OpV], thorough: bool) {
 }
 
 pub fn run(p: &Params, rep: &mut Report) {
-    rep.rule = "seeded texts of 8-40 (60) codepoints with whitespace runs of 0-12, 4-14 known selections chosen to be nested / crossing / adjacent / zero-width / touching position 0 and the very end / lying in either half; references: single known selections, their annotations, and sets of 2-3 selections; every operator x all/negate/limit(-,0,1,3)/whitespace combination (92 variants) through ResultTextSelection::related_text, ResultItem<Annotation>::related_text, ResultTextSelectionSet::related_text and ResultItem<TextResource>::related_text; expected = brute force over all known selections with the public test(), minus the reference itself (plain Equals: the reference itself). distinct_nontrivial = distinct (entry point, operator variant, reference class) with a non-empty expected result".into();
+    rep.rule = "seeded texts of 8-40 (60) codepoints with whitespace runs of 0-12, 4-14 known selections chosen to be nested / crossing / adjacent / zero-width / touching position 0 and the very end / lying in either half; references: single known selections, their annotations, and sets of 2-3 selections; every operator x all/negate/limit(-,0,1,3)/whitespace combination (92 variants) through ResultTextSelection::related_text, ResultItem<Annotation>::related_text, ResultTextSelectionSet::related_text, ResultItem<TextResource>::related_text and the iterator adaptor (related to any of the selections: the merged single-reference answers, each once); expected = brute force over all known selections with the public test(), minus the reference itself (plain Equals: the reference itself). distinct_nontrivial = distinct (entry point, operator variant, reference class) with a non-empty expected result".into();
     rep.assumptions = vec![
         "the meaning of test() is judged by C13, here it is the oracle".into(),
         "references are known (bound) selections; for plain Equals the expected result is the reference selection(s) themselves".into(),
